@@ -105,7 +105,7 @@ impl RSV {
         ensures
             r matches Some(k) ==> k <= 256,                                                       //@ob C12.arith.which_power_of_2.bounded
             r == Some(0usize) ==> number == kw_of_u8(1),                                          //@ob C12.arith.which_power_of_2.zero_only_for_one
-//@loop 1
+//@loop 1 kind=while
                 invariant
                     counter <= 256,                                                               //@ob C12.arith.which_power_of_2.bounded
                     counter >= 1,                                                                 //@ob C12.arith.which_power_of_2.zero_only_for_one
@@ -198,7 +198,7 @@ pub open spec fn nested_end(v: RSV, e: int) -> int
         // sub-words nest with offsets relative to the sub-word they are taken from (abi_type_for_impl adds them up):
         // the region ends inside the word once the offsets of all the sub-words around it are added
         r matches Some(RSVD::SubWord { offset, size, value }) ==> nested_end(*value, offset + size) <= 256,   //@ob C12.arith.sub_word.nested_region_inside_slot
-//@loop 1
+//@loop 1 kind=while
                 invariant
                     end >= offset + length,
                     end == usize::MAX || nested_end(**enclosing, end as int) == nested_end(*value, offset + length),   //@ob C12.arith.sub_word.nested_region_inside_slot
